@@ -993,3 +993,4 @@ func stripLevel(reason string) string {
 
 func TestProp(t *testing.T)   { ev.Prop(t, false, gen, check) }
 func TestReplay(t *testing.T) { ev.Replay(t, check) }
+func FuzzC16(f *testing.F)    { ev.FuzzProp(f, false, gen, check) }
